@@ -100,6 +100,10 @@ End Partition.
 (* ---------------- the regenerated trapezoid kernels composed as the tw_* wrappers compose them ---------------- *)
 Lemma qphi_trap_respects a b c d : respects (qphi_trap a b c d).
 Proof. intros x y E. unfold qphi_trap, Qltb. qcmpp; cbn -[Qmult Qplus Qminus Qopp Qdiv Qinv]; rewrite ?E; reflexivity. Qed.
+Lemma qg_trap_respects a b c d : respects (qg_trap a b c d).
+Proof. intros x y E. unfold qg_trap, Qltb. qcmpp; cbn -[Qmult Qplus Qminus Qopp Qdiv Qinv]; rewrite ?E; reflexivity. Qed.
+Lemma qphip_trap_respects a b c d : respects (qphip_trap a b c d).
+Proof. intros x y E. unfold qphip_trap. rewrite (qg_trap_respects a b c d x y E). reflexivity. Qed.
 
 Lemma tw_trap_gen a b c d alpha v f o : a < b -> b < c -> c < d -> 0 <= v ->
   let A := XFin a in let B := XFin b in let C := XFin c in let D := XFin d in
@@ -112,11 +116,11 @@ Lemma tw_trap_gen a b c d alpha v f o : a < b -> b < c -> c < d -> 0 <= v ->
   xmul (XFin (1 # 2)) (gen_consistent_huber (gen_phi_trap A B C D) (gen_phi_prime_trap A B C D) (XFin f) (XFin o) (XFin v))
     =x= XFin (q_tw_huber_trap a b c d v f o).
 Proof. intros Hab Hbc Hcd Hv. cbv zeta. repeat split.
- - apply ce_gen_spec; [apply lifts_phi_trap | apply lifts_phip_trap]; auto.
- - apply xmul_fin_eq. apply cq_gen_spec. apply lifts_g_trap; auto.
- - apply cq_gen_spec. apply lifts_g_trap; auto.
- - apply xmul_fin_eq. apply ce_gen_spec; [apply lifts_phi_trap | apply lifts_phip_trap]; auto.
- - apply xmul_fin_eq. apply ch_gen_spec; [apply lifts_phi_trap | apply lifts_phip_trap | | apply qphi_trap_respects]; auto. Qed.
+ - apply ce_gen_spec; [apply lifts_phi_trap | apply lifts_phip_trap | apply qphi_trap_respects | apply qphip_trap_respects]; auto.
+ - apply xmul_fin_eq. apply cq_gen_spec; [apply lifts_g_trap | apply qg_trap_respects]; auto.
+ - apply cq_gen_spec; [apply lifts_g_trap | apply qg_trap_respects]; auto.
+ - apply xmul_fin_eq. apply ce_gen_spec; [apply lifts_phi_trap | apply lifts_phip_trap | apply qphi_trap_respects | apply qphip_trap_respects]; auto.
+ - apply xmul_fin_eq. apply ch_gen_spec; [apply lifts_phi_trap | apply lifts_phip_trap | | apply qphi_trap_respects | apply qphip_trap_respects]; auto. Qed.
 
 (* weight one: the plateau [b, c) covers the data (this is what interval_where_one = interval_where_positive = (-inf, inf) becomes) *)
 Lemma tw_weight_one_trap a b c d alpha v f o : a < b -> c < d -> b <= f -> b <= o -> f < c -> o < c -> 0 <= v ->
